@@ -2,15 +2,17 @@
 Require Extraction.
 Require Import ExtrOcamlBasic.
 From Coq Require Import List ZArith.
-From Rjson Require Import Base Helpers Machine Api Compat.
+From Rjson Require Import Base Helpers Machine Api Compat Round Fp ValueReader.
 From RjsonRun Require Import Inst.
 Extraction "model.ml"
   Z.add Z.mul Z.sub Z.opp Z.div_eucl Z.of_nat Z.to_nat Z.eqb Z.ltb Z.leb Z.of_N
   bz zb wrap64 get len stack_of
   skipFloatDec skipFloatExp getu4 unescapeUnicodeChar
   NextToken NextTokenType ReadUint64 ReadUint32 ReadUint ReadInt64 ReadInt32 ReadInt
-  i_skipValue i_skipValueFast i_handleArrayValues i_handleObjectValues
-  i_SkipValue i_SkipValueFast i_Valid i_HandleArrayValues i_HandleObjectValues
-  i_ReadNull i_ReadBool i_appendRemainderOfString i_UnescapeStringContent i_ReadStringBytes i_ReadString
-  StdLibCompatibleString StdLibCompatibleStringBytes sanitize
-  i_DecodeInt64 i_DecodeInt32 i_DecodeInt i_DecodeUint64 i_DecodeUint32 i_DecodeUint i_DecodeBool i_DecodeString.
+  x_skipValue x_skipValueFast x_handleArrayValues x_handleObjectValues
+  x_SkipValue x_SkipValueFast x_Valid x_HandleArrayValues x_HandleObjectValues
+  x_ReadNull x_ReadBool x_appendRemainderOfString x_UnescapeStringContent x_ReadStringBytes x_ReadString
+  StdLibCompatibleString StdLibCompatibleStringBytes sanitize compat_tree
+  fpT x_ReadFloat64 x_DecodeFloat64 x_ReadValue x_ReadObject x_ReadArray x_ReadValue_fast x_ReadObject_fast x_ReadArray_fast
+  readFloat_m atof64exact_m eiselLemire64_m set_m floatBits_m ParseJSONFloatPrefix_m
+  x_DecodeInt64 x_DecodeInt32 x_DecodeInt x_DecodeUint64 x_DecodeUint32 x_DecodeUint x_DecodeBool x_DecodeString.
